@@ -114,4 +114,14 @@ def canon_result(r):
     res = list(r[0])
     if res and res[0] == 4:
         res[1] = {5: 0, 4: 1}.get(res[1], res[1])
-    return [res, r[1], r[2]]
+    out = [res, r[1], r[2]]
+    if len(r) > 3:
+        out.append([canon_op(o) for o in r[3]])
+    return out
+
+
+def canon_op(o):
+    """file-system listings are compared as sorted lists"""
+    if isinstance(o, list) and o and o[0] == 3:
+        return [3, o[1], sorted(o[2])]
+    return o
